@@ -117,11 +117,13 @@ func (*c07Prop) Gen(r *Rand, pl *Plan) Case {
 	case 5, 6:
 		c.G = genGrammar(r, &genOpts{MaxNodes: r.Range(3, size), Alphabet: alphabet, Trims: true, LeftRec: true, MemoChance: r.Range(20, 70)})
 	default:
-		c.G = genGrammar(r, &genOpts{MaxNodes: r.Range(3, size), Alphabet: alphabet, Trims: r.Chance(2, 3), MemoChance: r.Range(30, 80), Names: r.Chance(1, 3)})
+		c.G = genGrammar(r, &genOpts{MaxNodes: r.Range(3, size), Alphabet: alphabet, Trims: r.Chance(2, 3), MemoChance: r.Range(30, 80), Names: r.Chance(1, 3), Rich: r.Chance(1, 3)})
 	}
 	if c.G.analyze().AnyLeft {
 		// left-recursive inputs stay short: ambiguous cyclic grammars blow up quickly
 		c.Input = c.G.genInput(r, alphabet, 5)
+	} else if hasRich(c.G) {
+		c.Input = c.G.genInput(r, alphabet, 28) // room for several literals
 	} else {
 		c.Input = c.G.genInput(r, alphabet, 9)
 	}
@@ -182,10 +184,8 @@ func (*c07Prop) Decode(b []byte) (Case, error) {
 	if a.BadRep {
 		return nil, fmt.Errorf("nullable repetition operand: outside the premise")
 	}
-	for i := range c.G.Nodes {
-		if a.LeftRec[i] && c.G.Nodes[i].Op != "ref" && !c.G.Nodes[i].Memo {
-			return nil, fmt.Errorf("left-recursive node %d is not memoised: outside the premise", i)
-		}
+	if a.Unguarded {
+		return nil, fmt.Errorf("a left-recursive cycle contains no memoised parser: outside the premise")
 	}
 	for _, s := range c.Steps {
 		if s.Node < 0 || s.Node >= len(c.G.Nodes) || s.Pos < 0 || s.Pos > len(c.Input) {
@@ -550,6 +550,11 @@ func (*c07Prop) Run(cc Case) (v Verdict) {
 		if r := recover(); r != nil {
 			if d, ok := r.(discard); ok {
 				v.Discard = d.why
+				v.Violation = false
+				return
+			}
+			if hasRich(c.G) {
+				v.Discard = "literal-parser-panic"
 				v.Violation = false
 				return
 			}
